@@ -148,15 +148,14 @@ def column(draw, tier="quick", fam=None):
     npal = draw(st.integers(2, 4))
     with_c = fam == "solids"
     fixed = None
-    if case["multi_d"] is not None:
-        # known finding (replays/C11/known/mcd-*.json): multicomponent diffusion repairs negative amounts by adding mass --
-        # -implicit puts 1e-13 mol of every diffusing element into each cell that lacks it, the explicit scheme silently
-        # resets amounts down to -1e-12 mol to zero (front of an element entering cells that lack it) -> with -multi_d
-        # all solutions of the column contain the same elements (at different concentrations)
+    if case["implicit"] is not None:
+        # known finding (replays/C11/known/mcd-implicit-min-mol-floor.json): -implicit keeps >= 1e-13 mol of every diffusing
+        # element in every cell, i.e. creates that much in each cell that lacks the element -> with -implicit all solutions
+        # of the column contain the same elements (at different concentrations)
         cats = sorted(set(draw(st.lists(st.sampled_from(sorted(CATIONS)), min_size=0, max_size=2, unique=True))) | {"Na"})
         ans = sorted(set(draw(st.lists(st.sampled_from(sorted(ANIONS)), min_size=0, max_size=2, unique=True))) | {"Cl"})
         fixed = (cats, ans)
-        case.setdefault("excluded", []).append("multi_d_with_element_absent_in_a_cell")
+        case.setdefault("excluded", []).append("implicit_with_element_absent_in_a_cell")
     case["palette"] = [draw(palette_solution(ph_free, fixed=fixed)) for _ in range(npal)]
     # 2-4 distinct solutions spread over the cells as contiguous blocks (fronts) or interleaved
     if draw(st.booleans()) or n < 2:
